@@ -69,7 +69,13 @@ func makeFeatures(list []interface{}) gts.FeatureSlice {
 			loc = locFromJSON(m["loc"])
 		}
 		props := gts.Props{}
-		if l := asStr(m["label"]); l != "" {
+		hasLabel := false
+		for _, q := range asList(m["props"]) {
+			if kv := asList(q); len(kv) > 0 && asStr(kv[0]) == "label" {
+				hasLabel = true
+			}
+		}
+		if l := asStr(m["label"]); l != "" && !hasLabel {
 			props.Add("label", l)
 		}
 		for _, q := range asList(m["props"]) {
